@@ -420,6 +420,53 @@ func c12Prop(rt *rapid.T) {
 	}
 }
 
+// c12ManyInitializers: a graph with many initializers of which at most one is malformed must
+// load iff none is malformed, and every initializer must come back with its own values.
+func c12ManyInitializers(rt *rapid.T) {
+	n := rapid.SampledFrom([]int{2, 5, 31, 32, 33, 40, 63, 64, 65, 80, 130}).Draw(rt, "nInitializers")
+	bad := -1
+	if rapid.Bool().Draw(rt, "oneMalformed") {
+		bad = rapid.IntRange(0, n-1).Draw(rt, "badAt")
+	}
+	g := &onnx.GraphProto{}
+	want := map[string]tensor.Tensor{}
+	for i := 0; i < n; i++ {
+		name := fmt.Sprintf("w%d", i)
+		vals := []float32{float32(i), float32(-i), 0.5}
+		tp := encodeTensor(name, []int{3}, vals, i%2 == 0)
+		if i == bad {
+			tp.Dims = []int64{4} // one value short of the declared shape
+		} else {
+			want[name] = mkT([]int{3}, vals)
+		}
+		g.Initializer = append(g.Initializer, tp)
+		g.Output = append(g.Output, valueInfoNoShape(name))
+	}
+	ev.Case("many-initializers", fmt.Sprintf("n=%d malformed=%d", n, bad), true, fmt.Sprintf("n=%d", n), fmt.Sprintf("malformed=%v", bad >= 0))
+	lr := loadBytes(marshalModel(mkModel(g, 13)))
+	if lr.panicked {
+		rt.Fatalf("C12 violated: loading %d initializers (malformed: %d) panics: %v", n, bad, lr.panicVal)
+	}
+	if bad >= 0 {
+		if lr.err == nil {
+			rt.Fatalf("C12 violated: a model whose initializer %d of %d has a payload that does not match its shape was loaded", bad, n)
+		}
+		return
+	}
+	if lr.err != nil {
+		rt.Fatalf("C12 violated: %d well-formed initializers refused: %v", n, lr.err)
+	}
+	rr := runModel(lr.m, gonnx.Tensors{})
+	if rr.err != nil || rr.panicked {
+		rt.Fatalf("C12 violated: Run of an initializer-only graph fails: %v %v", rr.err, rr.panicVal)
+	}
+	for name, w := range want {
+		if d := sameBits(rr.outs[name], w); d != "" {
+			rt.Fatalf("C12 violated: initializer %s of %d differs: %s", name, n, d)
+		}
+	}
+}
+
 func TestC12(t *testing.T) {
 	ev.Begin("C12",
 		"rapid: element type from the 11, typed repeated field or little-endian raw bytes, shape of rank 0..4, element bit patterns (uniform 64-bit, extremes, NaN payloads, -0, small), encoded by the harness's own encoder; one in four cases malformed (payload short/long by a byte or an element, empty, negative dim, overflowing dims, shape with another element count) or given a data_type code the library cannot represent with one typed field or raw bytes populated. "+
@@ -427,6 +474,7 @@ func TestC12(t *testing.T) {
 		"oracle: round trip through the harness's encoder, bit-exact; malformed or unrepresentable inputs must give a non-nil error (a tensor or a panic is a violation)")
 	defer reportKnownFindings("C12")
 	check(t, "decode", 60000, 300000, c12Prop)
+	check(t, "many-initializers", 300, 3000, c12ManyInitializers)
 }
 
 func init() {
